@@ -20,6 +20,8 @@ mod execchecks;
 mod values;
 mod w2;
 mod frontend;
+mod pgen;
+mod gencheck;
 mod hintfault;
 mod report;
 mod rng;
@@ -99,6 +101,11 @@ fn main() {
             let f2 = fmtchecks::format_text(&f1, &cfg);
             let f3 = fmtchecks::format_text(&f2, &cfg);
             println!("--- pass 1\n{f1}--- pass 2\n{f2}--- pass 3 same as 2: {}\n--- check: {:?}", f3 == f2, fmtchecks::check_format(&text, &cfg));
+        }
+        "debug-gen" => {
+            let mut rng = rng::Rng::derive(seed, &[1, args[2].parse::<u64>().unwrap()]);
+            let (p, _) = pgen::generate(&mut rng);
+            println!("{}", pgen::render_program(&p));
         }
         "debug-gen-contract" => {
             for i in 0..args[2].parse::<u64>().unwrap() {
